@@ -14,6 +14,7 @@ import (
 	"sort"
 	"strconv"
 	"strings"
+	"syscall"
 	"time"
 
 	"github.com/rogpeppe/go-internal/cache"
@@ -421,7 +422,7 @@ func runHistory(work string, m *mdl, hs []hop) histOutcome {
 			}
 		case "special":
 			expect = map[int][]byte{}
-		case "put", "putbytes", "putoff", "putreuse", "putcb", "outputfile":
+		case "put", "putbytes", "putfile", "putoff", "putreuse", "putcb", "outputfile":
 		default: // damage
 			if h.K == "a" {
 				delete(expect, h.ID%len(ids))
@@ -434,13 +435,14 @@ func runHistory(work string, m *mdl, hs []hop) histOutcome {
 			}
 		}
 		switch h.Kind {
-		case "put", "putbytes", "putoff", "putreuse", "putcb":
+		case "put", "putbytes", "putfile", "putoff", "putreuse", "putcb":
 			d := contents[h.C%len(contents)]
 			var reused *bytes.Reader
 			outPath, _, _ := hop{K: "d", C: h.C}.target(dir)
 			_, statErr := os.Stat(outPath)
 			outputExisted := statErr == nil
 			inner := "NOCB"
+			aliased := ""
 			impl = common.Safely(func() string {
 				var err error
 				var o cache.OutputID
@@ -513,6 +515,30 @@ func runHistory(work string, m *mdl, hs []hop) histOutcome {
 						o, n, err = c.PutNoVerify(id, rd)
 					} else {
 						o, n, err = c.Put(id, rd)
+					}
+				} else if h.Kind == "putfile" {
+					// the source is a FILE of the caller's, on the file system of the cache directory (a build
+					// artifact next to the cache).  It is the caller's again once Put has returned: it is
+					// then rewritten in place, patched, truncated, appended to, removed or replaced (h.N).
+					// Nothing of that overwrites, trims or damages the entry.
+					src := filepath.Join(work, "caller-artifact")
+					os.Remove(src)
+					os.WriteFile(src, d, 0o666)
+					f, ferr := os.Open(src)
+					if ferr != nil {
+						out.tags["putfile:no-source"]++
+						o, n, err = c.Put(id, bytes.NewReader(d))
+					} else {
+						o, n, err = c.Put(id, f)
+						if h.T%2 == 0 {
+							f.Close()
+						}
+						aliased = sharesInode(src, outPath)
+						callerReuses(src, h.N, d)
+						if h.T%2 == 1 {
+							f.Close()
+						}
+						out.tags["putfile:then-"+callerActions[h.N%len(callerActions)]]++
 					}
 				} else {
 					mine := append(make([]byte, 0, len(d)+16), d...)
@@ -612,6 +638,12 @@ func runHistory(work string, m *mdl, hs []hop) histOutcome {
 					viol(i, "put-then-getfile", "GetFile after a successful Put does not name a file holding the stored data: "+trunc(gf))
 				}
 				ask(i, "getbytes-after-put", "getbytes "+idhex, got)
+			}
+			if aliased == "" && strings.HasPrefix(impl, "PUTOK") {
+				aliased = linkedElsewhere(outPath)
+			}
+			if aliased != "" {
+				viol(i, "output-owned-by-cache", fmt.Sprintf("after %s(id%d) of content %d (%d bytes) the stored output %s %s: whoever owns that other name changes the cache's bytes without touching the cache", h.Kind, h.ID%len(ids), h.C%len(contents), len(d), filepath.Base(outPath), aliased))
 			}
 			if h.Kind == "putreuse" && reused != nil && strings.HasPrefix(impl, "PUTOK") {
 				// the same io.ReadSeeker, left at its end by the first Put, stored again under the next id
@@ -938,6 +970,61 @@ var modelTime time.Duration
 // step of a history names the one it goes through.
 var sharedHandles []*cache.Cache
 
+// callerActions: what the owner of a file that was given to Put does with it afterwards.
+var callerActions = []string{"keep", "rewrite", "patch", "truncate", "append", "remove", "replace", "rewrite-longer"}
+
+func callerReuses(src string, n int, d []byte) {
+	other := append([]byte{}, d...)
+	for i := range other {
+		other[i] ^= 0x3C
+	}
+	switch callerActions[n%len(callerActions)] {
+	case "rewrite": // os.WriteFile on the same path: O_TRUNC, same length, other bytes
+		os.WriteFile(src, other, 0o666)
+	case "patch": // one byte in place, no truncation
+		if f, err := os.OpenFile(src, os.O_WRONLY, 0); err == nil {
+			if len(other) > 0 {
+				f.WriteAt(other[len(other)/2:len(other)/2+1], int64(len(other)/2))
+			}
+			f.Close()
+		}
+	case "truncate":
+		os.Truncate(src, int64(len(d)/2))
+	case "append":
+		if f, err := os.OpenFile(src, os.O_WRONLY|os.O_APPEND, 0); err == nil {
+			f.Write([]byte("the next build's output"))
+			f.Close()
+		}
+	case "remove":
+		os.Remove(src)
+	case "replace": // a new file renamed over it
+		os.WriteFile(src+".new", other, 0o666)
+		os.Rename(src+".new", src)
+	case "rewrite-longer":
+		os.WriteFile(src, append(other, []byte("and more")...), 0o666)
+	}
+}
+
+// sharesInode: do two paths name one file?
+func sharesInode(a, b string) string {
+	sa, err1 := os.Stat(a)
+	sb, err2 := os.Stat(b)
+	if err1 == nil && err2 == nil && os.SameFile(sa, sb) {
+		return "is the very file (same device and inode) the caller handed to Put, " + filepath.Base(a)
+	}
+	return ""
+}
+
+// linkedElsewhere: a regular file of the cache with more than one name.
+func linkedElsewhere(p string) string {
+	if fi, err := os.Lstat(p); err == nil && fi.Mode().IsRegular() {
+		if st, ok := fi.Sys().(*syscall.Stat_t); ok && st.Nlink > 1 {
+			return fmt.Sprintf("has %d names (st_nlink; inode %d)", st.Nlink, st.Ino)
+		}
+	}
+	return ""
+}
+
 // scribble is what a caller is free to do with a slice GetBytes returned to it, or with the data it
 // gave to PutBytes once that has returned: overwrite it in place, and use its spare capacity.
 func scribble(b []byte) {
@@ -1250,6 +1337,11 @@ func genHistory(r *common.RNG) ([]hop, []string) {
 				hs = append(hs, hop{Kind: k, ID: id, C: c, N: 1 + r.Intn(len(contents[c])+1), T: r.Intn(2)})
 				continue
 			}
+			if r.Chance(1, 6) {
+				// the source is a file of the caller's, which the caller goes on using afterwards
+				hs = append(hs, hop{Kind: "putfile", ID: id, C: c, N: r.Intn(len(callerActions)), T: r.Intn(2)})
+				continue
+			}
 			if r.Chance(1, 5) {
 				// the source looks something up while the Put is in progress
 				hs = append(hs, hop{Kind: "putcb", ID: id, C: c, CB: &cbSpec{Pass: 1 + r.Intn(2), N: r.Intn(3),
@@ -1330,7 +1422,7 @@ func genHistory(r *common.RNG) ([]hop, []string) {
 	if r.Chance(1, 4) {
 		for i := range hs {
 			switch hs[i].Kind {
-			case "put", "putbytes", "putoff", "putreuse", "putcb", "get", "getbytes", "getfile", "outputfile":
+			case "put", "putbytes", "putfile", "putoff", "putreuse", "putcb", "get", "getbytes", "getfile", "outputfile":
 				hs[i].Hd = r.Intn(nHandles)
 			}
 		}
@@ -1453,6 +1545,16 @@ func runC05(f *common.Flags, res *common.Result, m *mdl) {
 			for _, k := range []string{"a", "d"} {
 				one([]hop{{Kind: "put", ID: 0, C: ci}, {Kind: "put", ID: 2, C: 4}, {Kind: "special", K: k, ID: 0, C: ci, N: sp},
 					{Kind: "getbytes", ID: 0}, {Kind: "getfile", ID: 0}, {Kind: "getbytes", ID: 2}}, "special-damage")
+			}
+		}
+	}
+	// 1c'. Put from a file of the caller's next to the cache (contents: one byte, 40, empty, the big one), then every
+	// thing the caller may do with ITS file; the entry must read back the data, now and after a later Put
+	for _, ci := range []int{1, 3, 0, 5} {
+		for a := range callerActions {
+			for t := 0; t < 2; t++ {
+				one([]hop{{Kind: "putfile", ID: 0, C: ci, N: a, T: t}, {Kind: "getbytes", ID: 0}, {Kind: "getfile", ID: 0},
+					{Kind: "putfile", ID: 1, C: ci, N: a}, {Kind: "getbytes", ID: 0}, {Kind: "getbytes", ID: 1}}, "caller-file")
 			}
 		}
 	}
